@@ -129,11 +129,53 @@ func TestVerifBounded(t *testing.T) {
 			}
 		}
 	}
+	// boundary letters of the upper- and lower-case ranges in every position (letters and '_' only: what the
+	// casing of a word with punctuation inside should be is not fixed by the property)
+	edge := []string{"a", "z", "y", "A", "Z", "Y", "M", "_"}
+	var eids []string
+	var gen func(prefix string, n int)
+	gen = func(prefix string, n int) {
+		eids = append(eids, prefix)
+		if n == 0 {
+			return
+		}
+		for _, c := range edge {
+			gen(prefix+c, n-1)
+		}
+	}
+	gen("", 4)
+	for _, tpl := range []struct{ tpl, pre, g, sep, d, suf string }{
+		{"go_designer", "", "go", "_", "designer", ""},
+		{"GoDesigner", "", "Go", "", "Designer", ""},
+		{"x-go#Designer_x", "x-", "go", "#", "Designer", "_x"},
+		{"GO_DESIGNER", "", "GO", "_", "DESIGNER", ""},
+	} {
+		gs, _ := verifStyle(tpl.g)
+		ds, _ := verifStyle(tpl.d)
+		for _, id := range eids {
+			evals++
+			got, err := FileNamingFormat(tpl.tpl, id)
+			if err != nil {
+				t.Fatalf("FileNamingFormat(%q, %q) failed: %v", tpl.tpl, id, err)
+			}
+			ws := verifWords(id)
+			for i := range ws {
+				if i == 0 {
+					ws[i] = gs(ws[i])
+				} else {
+					ws[i] = ds(ws[i])
+				}
+			}
+			if want := tpl.pre + strings.Join(ws, tpl.sep) + tpl.suf; got != want {
+				t.Fatalf("FileNamingFormat(%q, %q) = %q, want %q", tpl.tpl, id, got, want)
+			}
+		}
+	}
 	// determinism: same inputs, same output
 	a, _ := FileNamingFormat("go_designer", "aB_b")
 	b, _ := FileNamingFormat("go_designer", "aB_b")
 	if a != b {
 		t.Fatalf("not deterministic: %q vs %q", a, b)
 	}
-	fmt.Printf("BOUNDED {\"check\":\"format.FileNamingFormat vs reference naming rule\",\"bound\":\"576 well-formed templates x 8 designer casings incl. mixed, 8 malformed templates; identifiers: all 1365 strings of length 0..5 over {a,b,A,_}\",\"evaluations\":%d,\"distinct_nontrivial\":%d,\"exhaustive\":true}\n", evals, nontrivial)
+	fmt.Printf("BOUNDED {\"check\":\"format.FileNamingFormat vs reference naming rule\",\"bound\":\"576 well-formed templates x 8 designer casings incl. mixed, 8 malformed templates; identifiers: all 1365 strings of length 0..5 over {a,b,A,_}; plus 4 templates x all 4681 strings of length 0..4 over {a,z,y,A,Z,Y,M,_}\",\"evaluations\":%d,\"distinct_nontrivial\":%d,\"exhaustive\":true}\n", evals, nontrivial)
 }
